@@ -43,7 +43,6 @@ import (
 	"time"
 
 	"github.com/openziti/storage/boltz"
-	"github.com/pkg/errors"
 	"go.etcd.io/bbolt"
 )
 
@@ -79,6 +78,15 @@ func c16ModesOf(t *hTx) ([]c16Mode, bool) {
 			if 3*i+2 < len(v.Id) {
 				ms[i] = c16Mode{Ctx: v.Id[3*i], Swallow: v.Id[3*i+1] == 'w', Deco: v.Id[3*i+2]}
 			}
+		}
+		return ms, true
+	}
+	// a plain transaction that names its ENTRY POINT (pseudo veto @ep, store_c16w5.go) runs through c16RunTx as well: every
+	// operation through the base context, nothing swallowed, no decoration
+	if _, ok := c16w5EntryOf(t); ok {
+		ms := make([]c16Mode, len(t.Ops))
+		for i := range ms {
+			ms[i] = c16Mode{Ctx: 'b', Deco: '-'}
 		}
 		return ms, true
 	}
@@ -276,14 +284,8 @@ func (h *harnessDb) c16RunTx(t *hTx, modes []c16Mode) string {
 	h.mu.Unlock()
 
 	var results, extra []string
-	base := boltz.NewMutateContext(context.Background())
-	if t.Sys {
-		base = base.GetSystemContext()
-	}
-	if t.PreCommitErr {
-		base.AddPreCommitAction(func(boltz.MutateContext) error { return errors.New("pre-commit action failed") })
-	}
-	err := h.db.Update(base, func(ctx boltz.MutateContext) error {
+	// the entry point of the transaction (Db.Update unless the pseudo veto @ep names another one: store_c16w5.go)
+	err := h.c16w5Enter(t, func(ctx boltz.MutateContext) error {
 		results, extra = nil, nil
 		for i := range t.Ops {
 			op, m := &t.Ops[i], modes[i]
